@@ -28,8 +28,15 @@ REPLAY_DIR = os.path.join(EVIDENCE_DIR, "replay")
 def run_property(prop: str, ctx: Ctx, tier: str) -> RuleResult:
     mod = importlib.import_module(f"sa.props.{prop.lower()}")
     total = RuleResult(prop)
+    total.analysis_errors = []
     for rule in mod.rules(ctx, tier):
-        r = rule()
+        try:
+            r = rule()
+        except AnalysisError as e:
+            # one rule that cannot answer does not silence the others: their violations are still reported;
+            # without any violation the run ends as analysis-broken (exit 2)
+            total.analysis_errors.append(str(e))
+            continue
         total.merge(r)
     for f in total.findings:
         f.prop = prop
@@ -141,6 +148,8 @@ def main(argv=None) -> int:
                 print(f"  [{i.verdict:9}] {i.rule:12} {i.site} -- {i.why}")
         for f, k in listed:
             print(f"KNOWN-FINDING: property={prop} {k.get('what', f.message)} [{f.rule} {' :: '.join(f.key)}]")
+        for e in res.analysis_errors:
+            print(f"ANALYSIS-ERROR {e}")
         if unlisted:
             rdir = REPLAY_DIR if not args.no_evidence else os.path.join("/tmp", "sa_replay_scratch")
             os.makedirs(rdir, exist_ok=True)
@@ -153,6 +162,8 @@ def main(argv=None) -> int:
                 if f.chain:
                     print("  chain: " + " -> ".join(f.chain))
             return 1
+        if res.analysis_errors:
+            return 2
         st = extra.get("selftest")
         if st and st.get("failed"):
             print(f"ANALYSIS-ERROR selftest: {st['failed']} variant(s) were not judged as expected: {st.get('failures')}")
